@@ -228,13 +228,16 @@ def _sample_array(array_like: ArrayLike, *, dtype: Optional[DTypeLike] = None, c
 
     if dtype is None and np.issubdtype(arr.dtype, np.integer):
         # it was unspecified, so we may want to use a smaller representation
-        max_ = max(-arr.min(initial=0), +arr.max(initial=0))
+        # Python ints: negating arr.min() in its own type overflows at -2**63
+        max_ = max(-int(arr.min(initial=0)), int(arr.max(initial=0)))
 
         try:
             dtype = next(tp for tp in (np.int8, np.int16, np.int32, np.int64)
                          if max_ <= np.iinfo(tp).max)
         except StopIteration:
-            raise ValueError('`samples like contains entries that do not fit in np.int64')
+            if arr.dtype != np.int64:
+                raise ValueError('`samples like contains entries that do not fit in np.int64')
+            dtype = np.int64  # only -2**63 gets here and it already is an int64
 
         arr = np.asarray(arr, dtype=dtype)  # preserves order by default
 
